@@ -256,7 +256,7 @@ def run_case(case) -> List[Tuple[str, str]]:
             for s_ in sites:
                 if s_ in ("boot_garbage", "store_batch", "store_single", "refl_compute", "refl_write", "refl_log", "t3_trace"):
                     continue        # exercised by construction (file present / store double / turnrun faults)
-                if hits.get(s_, 0) == 0:
+                if hits.get(s_, 0) == 0 and len(sites) == 1:
                     fails.append(("__not_exercised__", f"site {s_} was never reached in {sites}"))
         return fails
     finally:
@@ -303,6 +303,8 @@ def check(run) -> None:
             for b in names[i + 1:]:
                 if "boot_garbage" in (a, b) and "boot_raise" in (a, b):
                     continue
+                if "quality_trace" in (a, b) and ({"fusion", "mmr"} & {a, b}):
+                    continue      # shadow tracing requires quality.enabled = false, fusion/MMR require it true
                 k += 1
                 add([a, b], excs[k % len(excs)], "truncated" if "boot_garbage" in (a, b) else None)
     # attach the spec's predicted record sequence for vectors whose live set matches the model (all on)
